@@ -391,7 +391,28 @@ def own_canon(w: OwnWorld) -> Any:
         return ("nomgr",)
     held = getattr(m, "_aiozc", None)
     held_c = None if held is None else (held.label.rstrip("0123456789"), held.closed, len(held.zeroconf.listeners))
+    # every attribute the manager object has (whatever a future version keeps there - counters, flags, caches): primitive values as
+    # they are, containers by size, other objects by type; the held instance in the canonical form above
+    names: set[str] = set(getattr(m, "__dict__", {}))
+    for c in type(m).__mro__:
+        sl = getattr(c, "__slots__", ())
+        names.update([sl] if isinstance(sl, str) else sl)
+    extra = []
+    for nm in sorted(names):
+        try:
+            v = getattr(m, nm)
+        except AttributeError:
+            continue
+        if v is held:
+            continue
+        if isinstance(v, (bool, int, float, str, type(None))):
+            extra.append((nm, v))
+        elif isinstance(v, (list, tuple, set, frozenset, dict)):
+            extra.append((nm, type(v).__name__, len(v)))
+        else:
+            extra.append((nm, type(v).__name__))
     return (
+        tuple(extra),
         bool(getattr(m, "_created", None)), held_c,
         tuple(sorted((i.label.rstrip("0123456789"), i.closed, len(i.zeroconf.listeners)) for i in w.zlog.instances if not i.closed or i is held)),
         w.app_sync.closed, len(w.app_sync.listeners),
